@@ -73,7 +73,7 @@ def display_table(F, chk):
 def fromstr_table(F, chk):
     """(whole-literal arms, prefix arms, fallthrough result, all paths)"""
     b = F.one(name="from_str", impl_trait="FromStr", self_is=SELF_CODES)
-    paths = mir.walk(b)
+    paths = mir.walk_inline(b, F)          # nested / private helpers are walked in context
     whole, prefix = {}, {}
     fallthrough = []
     s_arg = ("arg", 1, b["locals"][1]["name"])
@@ -172,7 +172,7 @@ def run(chk, F, tier):
             for e in ents:
                 if e.get("variant") != var:
                     continue
-                fv = e["fields"][0] if e["fields"] else None
+                fv = mir.norm_ok(e["fields"][0]) if e["fields"] else None
                 origin = describe_origin(fv)
                 # the field is the parsed number: okval(parse(...)) on this path
                 if fv is not None and fv[0] == "okval" and origin and origin[0] == "parse":
@@ -213,38 +213,59 @@ def run(chk, F, tier):
             chk.expect("N2.whole", "%s:%s" % (name, var), e["subject"] == s_arg,
                        "FromStr yields the parameterless Codes::%s when only a part of the input (%s) equals %r: text such as %s(3) is accepted instead of rejected"
                        % (var, mir.fmt(e["subject"])[:60], name, name), sample={"name": name, "variant": var})
-    chk.rule("N2.propagate", floor=4, doc="every Option/Result on the parameter path is propagated with `?`, never defaulted")
-    bad_calls = ("unwrap_or", "unwrap_or_default", "unwrap_or_else", "unwrap", "expect", "::ok", "unwrap_unchecked")
-    seen_try = set()
+    chk.rule("N2.propagate", floor=3, doc="every fallible intermediate on the parameter path (split pieces: Option; parse: Result) is branched on - by `?` or by a match - and never defaulted (unwrap_or & co.)")
+    chk.rule("N2.errexit", floor=3, doc="on every path where such an intermediate is None / Err, from_str returns an error")
+    FALLIBLE = ("next", "parse", "ok_or_else", "ok_or", "split_once", "strip_prefix", "strip_suffix")
+
+    def failed(t, op, v):
+        """(the fallible call result this constraint speaks about, True if the constraint says it failed) or (None, None)"""
+        if t[0] != "discr":
+            return None, None
+        x = t[1]
+        via_try = x[0] == "try"
+        if via_try:
+            x = x[1]
+        while isinstance(x, tuple) and x and x[0] == "maperr":
+            x = x[1]
+        if not (isinstance(x, tuple) and x and x[0] == "ret" and x[2].split("::")[-1] in FALLIBLE):
+            return None, None
+        is_opt = x[2].split("::")[-1] in ("next", "split_once", "strip_prefix", "strip_suffix")
+        good = 0 if via_try else (1 if is_opt else 0)      # discriminant of the successful variant (Continue / Some / Ok)
+        if op != "==":
+            return x, (True if good in tuple(v) else None)  # "not the successful variant" on an otherwise-arm
+        return x, v != good
+
+    branched, fail_ok, fail_bad = set(), set(), {}
+    produced = set()
     for p in paths:
-        tried = {t[1][1] for (t, op, v) in p.constraints if t[0] == "discr" and t[1][0] == "try"}
         for e in p.calls():
             last = e[1].split("::")[-1]
             if last in ("unwrap_or", "unwrap_or_default", "unwrap_or_else", "unwrap", "expect", "ok", "unwrap_unchecked") and \
                     ("Option" in e[1] or "Result" in e[1] or "<T>" in e[1] or "<T, E>" in e[1]):
                 chk.bad("N2.propagate", "call:" + last, "FromStr uses %s on a parse intermediate (defaults instead of rejecting)" % e[1])
-            if last in ("parse", "ok_or_else", "ok_or"):
-                # result must be branched on by `?` on this path unless the path ended before
-                idx = p.events.index(e)
-                later = p.events[idx + 1:]
-                if e[3] in tried:
-                    seen_try.add((last, e[3][1]))
-                elif later or p.end[0] == "return":
-                    # consumed by something else?
-                    used_try = any(mir.mentions(t, lambda x: x == e[3]) for (t, op, v) in p.constraints)
-                    if not used_try:
-                        chk.bad("N2.propagate", "%s#%d" % (last, e[3][1]), "result of %s is not propagated with `?`" % e[1])
-    for k in sorted(seen_try):
-        chk.ok("N2.propagate", "%s#%d" % k)
-    # every `?` has an error exit
-    chk.rule("N2.errexit", floor=4, doc="each `?` has a path that returns the error")
-    breaks = {}
-    for p in paths:
+            if last in ("parse", "ok_or_else", "ok_or") or (last == "next" and p.end[0] == "return"):
+                produced.add(e[3])
+        r = p.ret
+        is_err = isinstance(r, tuple) and ((r[0] == "agg" and r[3] == "Err") or r[0] == "from_residual")
         for (t, op, v) in p.constraints:
-            if t[0] == "discr" and t[1][0] == "try":
-                breaks.setdefault(t[1][1], set()).add(v if op == "==" else "other")
-    for t, vals in breaks.items():
-        chk.expect("N2.errexit", mir.fmt(t)[:60], 1 in vals, "no error exit for %s" % mir.fmt(t))
+            x, f = failed(t, op, v)
+            if x is None:
+                continue
+            branched.add(x)
+            if f and p.end[0] == "return":
+                if is_err:
+                    fail_ok.add(x)
+                else:
+                    fail_bad[x] = mir.fmt(r)[:80]
+    for x in sorted(produced, key=str):
+        last = x[2].split("::")[-1]
+        if last == "next" and x not in branched:
+            continue        # iterator steps of a `for` loop or similar are not parse intermediates
+        chk.expect("N2.propagate", "%s#%d" % (last, x[1]), x in branched, "result of %s is never branched on (neither `?` nor a match): its failure is ignored" % x[2])
+    for x in sorted(branched, key=str):
+        last = x[2].split("::")[-1]
+        chk.expect("N2.errexit", "%s#%d" % (last, x[1]), x in fail_ok and x not in fail_bad,
+                   "when %s fails from_str %s" % (x[2], ("returns %s" % fail_bad[x]) if x in fail_bad else "has no path returning an error"))
 
     # ---- N3 identifiers
     ids = {}
